@@ -97,7 +97,7 @@ def hbfreeze_programs(tier, seed):
     return out
 
 
-def freeze_sweep(profile, nb, kmax, tag, victims=None):
+def freeze_sweep(profile, nb, kmax, tag, victims=None, from_phase=0, solo=0):
     """programs_fn: base programs of a profile, each re-run with one process frozen before its k-th hook, k = 1..kmax"""
     def fn(tier, seed):
         rng = random.Random("%s/%d" % (tag, seed))
@@ -111,10 +111,37 @@ def freeze_sweep(profile, nb, kmax, tag, victims=None):
             for k in range(1, km + 1):
                 p = json.loads(json.dumps(base))
                 st = dict(p.get("strat", {}))
-                st.update({"freeze": [victim, k], "p_spurious": 0.5, "max_spurious": 3, "seed": rng.randrange(1 << 30)})
+                st.update({"freeze": [victim, k, from_phase, solo], "p_spurious": 0.5, "max_spurious": 3, "seed": rng.randrange(1 << 30)})
                 p["strat"] = st
                 p["execs"] = 1
                 out.append(p)
+        return out
+    return fn
+
+
+def discrace_sweep(nq, kmax, tag):
+    """programs_fn: waiter kind x disconnecting event combinations (gen.disc_combos), the first waiter frozen before each of
+    its first kmax scheduling points of the race phase, running alone until then (one preemption at a chosen point)"""
+    def fn(tier, seed):
+        rng = random.Random("%s/%d" % (tag, seed))
+        combos = gen.disc_combos()
+        rng.shuffle(combos)
+        if tier == "quick":
+            combos = combos[:nq]
+            reps, km = 1, kmax[0]
+        else:
+            reps, km = 4, kmax[1]
+        out = []
+        for combo in combos:
+            for _ in range(reps):
+                base = gen.gen_discrace(rng, combo)
+                for k in range(1, km + 1):
+                    p = json.loads(json.dumps(base))
+                    st = dict(p.get("strat", {}))
+                    st.update({"freeze": [0, k, 1, 1], "p_spurious": 0.5, "max_spurious": 3, "seed": rng.randrange(1 << 30)})
+                    p["strat"] = st
+                    p["execs"] = 1
+                    out.append(p)
         return out
     return fn
 
@@ -129,10 +156,10 @@ PLANS = {
     "C03": dict(mc=MC("mixed", "async", thorough=["t_async"], bounded=["t_mixed"]) + MCA("2p"), spec_replay=True, spec_l1l0=True, spec_l2l1=True, runs=[R("general", (400, 8000), (3, 6), None, True), R("sync", (150, 2000), (3, 6), None, True),
                       R("async", (150, 3000), (3, 6), None, True), R("timed", (150, 3000), (3, 6), None, True),
                       R("chain", (150, 3000), (2, 6), None, True), R("close", (200, 3000), (3, 6), None, True),
-                      R("pairsweep", (0, 0), (1, 1), None, True, programs_fn=freeze_sweep("pair", (30, 800), (40, 60), "pairsweep", victims=(0, 1)))]),
+                      R("pairsweep", (0, 0), (1, 1), None, True, programs_fn=freeze_sweep("pair", (30, 800), (40, 60), "pairsweep", victims=(0, 1), from_phase=3, solo=1))]),
     "C05": dict(mc=MC("timed", "async", thorough=["t_async"], bounded=["t_timed"]) + MCA("2p"), spec_l1l0=True, runs=[R("general", (250, 4000), (3, 6), "C05", True), R("timed", (200, 3000), (3, 6), "C05", True),
                       R("async", (200, 3000), (3, 6), "C05", True), R("chain", (100, 2000), (2, 6), "C05", True),
-                      R("discrace", (0, 0), (1, 1), "C05", True, programs_fn=freeze_sweep("discrace", (12, 200), (45, 60), "discrace05"))]),
+                      R("discrace", (0, 0), (1, 1), "C05", True, programs_fn=discrace_sweep(16, (40, 60), "discrace05"))]),
     "C07": dict(mc=MC("sync", "async", thorough=["t_sync", "t_async"]),
                 runs=[R("hbfreeze", (0, 0), (1, 1), None, False, programs_fn=hbfreeze_programs, rawmon=[("HBMonitor", "HBMonitor.cfg")]),
                       R("fdropfreeze", (0, 0), (1, 1), None, False, programs_fn=freeze_sweep("fdrop", (12, 150), (30, 45), "fdropfreeze"),
@@ -145,10 +172,10 @@ PLANS = {
                 assume=["happens-before is computed from the orderings actually passed to the atomics on sequentially consistent interleavings; stale relaxed reads of weaker-than-SC executions are not enumerated"]),
     "C08": dict(mc=MC("sync", thorough=["t_sync"]), runs=[R("capacity", (300, 5000), (3, 6), "C08", True), R("general", (150, 2000), (3, 5), "C08", True)]),
     "C10": dict(mc=MC("sync", "timed", "closeclone", thorough=["t_sync"], bounded=["t_timed"]), spec_l2l1=True, runs=[R("close", (300, 5000), (3, 6), "C10", True), R("general", (150, 2000), (3, 5), "C10", True),
-                      R("discrace", (0, 0), (1, 1), "C10", True, programs_fn=freeze_sweep("discrace", (12, 200), (45, 60), "discrace10"))]),
+                      R("discrace", (0, 0), (1, 1), "C10", True, own_all=True, programs_fn=discrace_sweep(48, (40, 60), "discrace10"))]),
     "C11": dict(mc=MC("handles", "closeclone", bounded=["t_handles"]), runs=[R("hseq", (0, 0), (1, 1), "C11", True, programs_fn=handle_programs, own_all=True),
                                         R("disconnect", (300, 5000), (3, 6), "C11", True), R("general", (150, 2000), (3, 5), "C11", True),
-                                        R("discrace", (0, 0), (1, 1), "C11", True, own_all=True, programs_fn=freeze_sweep("discrace", (16, 200), (45, 60), "discrace11"))]),
+                                        R("discrace", (0, 0), (1, 1), "C11", True, own_all=True, programs_fn=discrace_sweep(48, (40, 60), "discrace11"))]),
     "C12": dict(mc=MC("handles", "closeclone", bounded=["t_handles"]) + MCA("1p"), runs=[R("hseq", (0, 0), (1, 1), "C12", True, programs_fn=handle_programs, own_all=True),
                                         R("handles", (300, 5000), (3, 6), "C12", True)]),
     "C13": dict(mc=MC("timed", bounded=["t_timed"]), runs=[R("timed", (400, 6000), (4, 8), "C13", True), R("chain", (150, 3000), (2, 6), "C13", True)]),
